@@ -202,8 +202,13 @@ def jobs(tier):
     out = [("ivector@C2D1t1", "job_ivector", dict(C=2, D=1, t=1)), ("ivector@C2D2t2", "job_ivector", dict(C=2, D=2, t=2))]
     for (C, D) in SIZES[tier]:
         for tr in ("ml", "map"):
+            if tr == "map" and C * D > 4:
+                continue  # the MAP weight normaliser at C = 3 exceeds the quick/thorough solver budget
             out.append(("gmm-%s@C%dD%d" % (tr, C, D), "job_gmm", dict(C=C, D=D, trainer=tr)))
-        out.append(("estep@C%dD%dN2" % (C, D), "job_estep", dict(C=C, D=D, N=2)))
+        if C * D <= 4:
+            out.append(("estep@C%dD%dN2" % (C, D), "job_estep", dict(C=C, D=D, N=2)))
+    if tier == "thorough":
+        out.append(("estep@C2D2N3", "job_estep", dict(C=2, D=2, N=3)))  # (C = 3 in range mode does not decide: not claimed)
     for (K, D, N) in bounds(tier)["kmeans_K_D_N"]:
         for via in ("fit", "gmm-init"):
             out.append(("kmeans-%s@K%dD%dN%d" % (via, K, D, N), "job_kmeans", dict(K=K, D=D, N=N, via=via)))
